@@ -56,6 +56,7 @@ struct Run {
     sender: crossbeam_channel::Sender<StatisticsMessage>,
     receiver: crossbeam_channel::Receiver<StatisticsMessage>,
     rng: SmallRng,
+    dump: bool,
     dir: tempfile::TempDir,
 }
 
@@ -102,6 +103,7 @@ fn new_run(cfg: &Value, seed: u64) -> Run {
         sender,
         receiver,
         rng: SmallRng::seed_from_u64(seed),
+        dump: get_bool_or(cfg, "dumps", false),
         dir,
     }
 }
@@ -127,6 +129,14 @@ where
 }
 
 fn exec_op(run: &mut Run, op: &Value) -> Value {
+    let mut ev = exec_op_inner(run, op);
+    if run.dump {
+        ev["dump"] = dump_json(&run.maps.verif_dump());
+    }
+    ev
+}
+
+fn exec_op_inner(run: &mut Run, op: &Value) -> Value {
     match get_str(op, "op") {
         "announce" => {
             let fam = get_i64(op, "fam") as u8;
@@ -320,6 +330,7 @@ fn main() {
         }
         reset["max_resp"] = json!(run.config.protocol.max_response_peers);
         reset["mode"] = json!(get_str_or(&cfg, "mode", "off"));
+        reset["dumps"] = json!(run.dump);
         tracer.emit(reset);
         for op in b["ops"].as_array().expect("ops") {
             let r = catch_unwind(AssertUnwindSafe(|| exec_op(&mut run, op)));
